@@ -269,11 +269,11 @@ pub fn run(cx: &mut Ctx) {
     cx.check(
         "dsv-round-trip",
         RULE,
-        Budget { quick: 1_500, thorough: 60_000, max_len: 6_000 },
+        Budget { quick: 2_500, thorough: 60_000, max_len: 6_000 },
         |u, st| {
             let delim = match u.below(4) {
                 0 => ',',
-                1 => *u.pick(&[';', '|', ' ', ':', '\\', '\'', '-', '=', '#', 'a', '0', '~', '!']),
+                1 => *u.pick(&[';', '|', ' ', ' ', ':', '\\', '\\', '\'', '-', '=', '#', 'a', '0', '~', '!']),
                 _ => {
                     let c = u.range(0x20, 0x7e) as u8 as char;
                     if c == '"' {
